@@ -104,4 +104,38 @@ of `hashLen` bytes -/
 def hmacTag (l hashLen : Nat) : Outcome Unit :=
   (makeChk 8).bind fun al => (putUint64 al).bind fun _ => sliceChk hashLen 0 (l : Nat)
 
+/-- contract of `cipher.NewCBCDecrypter(block, iv)` / `NewCBCEncrypter` -/
+def newCBC (ivLen : Nat) : Outcome Unit :=
+  if ivLen ≠ 16 then .panic "cipher.NewCBCDecrypter: IV length must equal block size" else .ok ()
+
+/-- contract of `BlockMode.CryptBlocks(dst, src)` -/
+def cryptBlocks (dstLen srcLen : Nat) : Outcome Unit :=
+  if srcLen % 16 ≠ 0 then .panic "crypto/cipher: input not full blocks"
+  else if dstLen < srcLen then .panic "crypto/cipher: output smaller than input" else .ok ()
+
+/-- `(*aesCBCAEAD).Open(dst, nonce, ciphertext, ad)` at the level of lengths.  `nonceGuard` /
+`alignGuard` = the two guards added by fixes c71e752 / 5c853ad (false = the code as found);
+`tagOK` = `hmac.Equal`; `unpadded` = what `UnpadPKCS7` makes of the decrypted body (`none` = error,
+`some k` = a prefix of `k ≤ body` bytes). -/
+def aeadOpen (nonceGuard alignGuard : Bool) (nonceLen ctLen tagSize dstCap dstLen : Nat) (tagOK : Bool)
+    (unpadded : Nat → Option Nat) : Outcome Nat :=
+  if nonceGuard && nonceLen ≠ 16 then .err "invalid nonce size"
+  else if ctLen < tagSize then .err "invalid ciphertext size"
+  else
+    (sliceChk ctLen ((ctLen : Int) - tagSize) ctLen).bind fun _ =>      -- ciphertext[len-tagSize:]
+      (sliceChk ctLen 0 ((ctLen : Int) - tagSize)).bind fun _ =>        -- ciphertext[:len-tagSize]
+        let body := ctLen - tagSize
+        if !tagOK then .err "message authentication failed"
+        else if alignGuard && body % 16 ≠ 0 then .err "invalid ciphertext size"
+        else
+          -- dst growth: dst[:dstLen+size] or make; out := dst[dstLen:]
+          (if dstCap ≥ dstLen + body then (sliceChk dstCap 0 (dstLen + body : Nat)).bind fun _ => .ok (dstLen + body)
+           else makeChk (dstLen + body : Nat)).bind fun n =>
+            (sliceChk n dstLen n).bind fun _ =>
+              (newCBC nonceLen).bind fun _ =>
+                (cryptBlocks body body).bind fun _ =>
+                  match unpadded body with
+                  | none => .err "pkcs7: incorrect padding"
+                  | some k => (sliceChk n 0 (dstLen + k : Nat)).bind fun _ => .ok (dstLen + k)   -- dst[:dstLen+len(out)]
+
 end Kit.NoPanic.KW
